@@ -212,7 +212,11 @@ void AsyncPipe::Impl::cleanup()
     if (!inited_)
         return;
 
-    stop_signal_ = true;
+    {
+        //! the backend thread reads stop_signal_ under full_buffers_mutex_ (wait predicate)
+        std::lock_guard<std::mutex> lg(full_buffers_mutex_);
+        stop_signal_ = true;
+    }
     full_buffers_cv_.notify_all();
     backend_thread_.join();
     stop_signal_ = false;
